@@ -283,7 +283,7 @@ func (sw *SingleAddressWallet) SpendableOutputs() ([]types.SiacoinElement, error
 	return unspent, nil
 }
 
-func (sw *SingleAddressWallet) selectUTXOs(amount types.Currency, inputs int, useUnconfirmed bool) (types.ChainIndex, []types.SiacoinElement, types.Currency, error) {
+func (sw *SingleAddressWallet) selectUTXOs(amount types.Currency, inputs int, useUnconfirmed, v2 bool) (types.ChainIndex, []types.SiacoinElement, types.Currency, error) {
 	tip, elements, err := sw.store.UnspentSiacoinElements()
 	if err != nil {
 		return types.ChainIndex{}, nil, types.ZeroCurrency, err
@@ -300,6 +300,11 @@ func (sw *SingleAddressWallet) selectUTXOs(amount types.Currency, inputs int, us
 			tpoolSpent[sci.ParentID] = true
 			delete(tpoolUtxos, sci.ParentID)
 		}
+		if v2 {
+			// the pool only accepts a v2 transaction together with
+			// unconfirmed v2 parents
+			continue
+		}
 		for i, sco := range txn.SiacoinOutputs {
 			tpoolUtxos[txn.SiacoinOutputID(i)] = types.SiacoinElement{
 				ID:            txn.SiacoinOutputID(i),
@@ -312,6 +317,11 @@ func (sw *SingleAddressWallet) selectUTXOs(amount types.Currency, inputs int, us
 		for _, sci := range txn.SiacoinInputs {
 			tpoolSpent[sci.Parent.ID] = true
 			delete(tpoolUtxos, sci.Parent.ID)
+		}
+		if !v2 {
+			// a v1 transaction can not spend the output of a v2
+			// transaction before it is confirmed
+			continue
 		}
 		for i := range txn.SiacoinOutputs {
 			sce := txn.EphemeralSiacoinOutput(i)
@@ -446,7 +456,7 @@ func (sw *SingleAddressWallet) FundTransaction(txn *types.Transaction, amount ty
 	sw.mu.Lock()
 	defer sw.mu.Unlock()
 
-	_, selected, inputSum, err := sw.selectUTXOs(amount, len(txn.SiacoinInputs), useUnconfirmed)
+	_, selected, inputSum, err := sw.selectUTXOs(amount, len(txn.SiacoinInputs), useUnconfirmed, false)
 	if err != nil {
 		return nil, err
 	}
@@ -509,7 +519,7 @@ func (sw *SingleAddressWallet) FundV2Transaction(txn *types.V2Transaction, amoun
 	sw.mu.Lock()
 	defer sw.mu.Unlock()
 
-	tip, selected, inputSum, err := sw.selectUTXOs(amount, len(txn.SiacoinInputs), useUnconfirmed)
+	tip, selected, inputSum, err := sw.selectUTXOs(amount, len(txn.SiacoinInputs), useUnconfirmed, true)
 	if err != nil {
 		return types.ChainIndex{}, nil, err
 	}
@@ -885,6 +895,9 @@ func (sw *SingleAddressWallet) SplitUTXO(n int, minAmount types.Currency) (types
 
 	tpoolSpent := make(map[types.SiacoinOutputID]bool)
 	tpoolUtxos := make(map[types.SiacoinOutputID]types.SiacoinElement)
+	// outputs of unconfirmed v1 transactions count as existing UTXOs but can
+	// not be split: the split transaction is a v2 transaction
+	tpoolV1 := make(map[types.SiacoinOutputID]bool)
 	for _, txn := range sw.cm.PoolTransactions() {
 		for _, sci := range txn.SiacoinInputs {
 			tpoolSpent[sci.ParentID] = true
@@ -894,6 +907,7 @@ func (sw *SingleAddressWallet) SplitUTXO(n int, minAmount types.Currency) (types
 			if sco.Address != sw.addr {
 				continue
 			}
+			tpoolV1[txn.SiacoinOutputID(i)] = true
 			tpoolUtxos[txn.SiacoinOutputID(i)] = types.SiacoinElement{
 				ID:            txn.SiacoinOutputID(i),
 				StateElement:  types.StateElement{LeafIndex: types.UnassignedLeafIndex},
@@ -938,7 +952,7 @@ func (sw *SingleAddressWallet) SplitUTXO(n int, minAmount types.Currency) (types
 			continue
 		}
 		above++
-		if sce.SiacoinOutput.Value.Cmp(largest.SiacoinOutput.Value) > 0 {
+		if !tpoolV1[sce.ID] && sce.SiacoinOutput.Value.Cmp(largest.SiacoinOutput.Value) > 0 {
 			largest = sce.Share()
 		}
 	}
